@@ -192,6 +192,7 @@ def motion_notify_rule(ctx, cg=None):
 def run(ctx):
     from . import e2e_rules as _e2e
 
+    ctx.attempt(_e2e.dynamics_rule, ctx, 'R14.E2')
     ctx.attempt(_e2e.history_rule, ctx, 'R14.E1')
     ctx.attempt(history_state_reset_rule, ctx)
     ctx.attempt(live_embedding_rule, ctx)
